@@ -281,9 +281,22 @@ def inline_new_locals(fn: ast.AST, ref_locals: Set[str], keep: Set[str] = frozen
                     for x in ast.walk(tt):
                         eff_of[id(x)] = last[id(n)]
         params = {a.arg for a in fn.args.args + fn.args.kwonlyargs + fn.args.posonlyargs}
-        # later bindings first: a local defined from another local is substituted while its defining expression is still small
-        for blk in reversed(blocks):
-            for i in range(len(blk) - 1, -1, -1):
+        # an expression with an effect whose only use is the very next binding goes there first (the result must not depend on whether
+        # that next binding - pure as long as it reads the local - has been substituted already); then later bindings first: a local defined from
+        # another local is substituted while its defining expression is still small
+        candidates = [(blk, i) for blk in reversed(blocks) for i in range(len(blk) - 1, -1, -1)]
+        def _feeds_a_binding(c) -> bool:
+            st = c[0][c[1]]
+            if not (isinstance(st, ast.Assign) and len(st.targets) == 1 and isinstance(st.targets[0], ast.Name) and roots_attrs(st.value)[2]):
+                return False
+            us = loads.get(st.targets[0].id, [])
+            if len(us) != 1 or c[1] + 1 >= len(c[0]):
+                return False
+            nxt = c[0][c[1] + 1]
+            return isinstance(nxt, ast.Assign) and len(nxt.targets) == 1 and isinstance(nxt.targets[0], ast.Name) and any(us[0] is x for x in ast.walk(nxt.value))
+        candidates = [c for c in candidates if _feeds_a_binding(c)] + [c for c in candidates if not _feeds_a_binding(c)]
+        for blk, i in candidates:
+            for _once in (0,):
                 s = blk[i]
                 if not (isinstance(s, ast.Assign) and len(s.targets) == 1 and isinstance(s.targets[0], ast.Name)):
                     continue
